@@ -138,6 +138,8 @@ def run(chk: Check) -> None:
     run_error_kinds(chk, ix)
     run_uninit(chk, ix)
     run_borrow_chain(chk, ix)
+    run_borrowed_results(chk, ix)
+    run_stolen_args(chk, ix)
     base = ix.cls(OP)
     ops = [c for c in base.all_subclasses() if c.module.name == "mypyc.ir.ops" and "sources" in c.methods and not any(isinstance(n, ast.Raise) for n in c.methods["sources"].node.body)]
     if len(ops) < 35:
@@ -517,3 +519,108 @@ def run_borrow_chain(chk: Check, ix) -> None:
             r8.ok(key, c.methods["sources"].loc())
         else:
             r8.violation(key, root_f.loc(b[k][1]), f"sources() of {k} gives {sa_}")
+
+
+BORROWING_APIS = {"PyList_GetItem", "PyTuple_GetItem", "PyDict_GetItem", "PyDict_GetItemWithError", "PyDict_GetItemString", "PySequence_Fast_GET_ITEM", "PyWeakref_GetObject", "PyCell_GET", "PyImport_AddModule", "PyModule_GetDict", "PyTuple_GET_ITEM", "PyList_GET_ITEM"}
+
+
+def run_borrowed_results(chk: Check, ix) -> None:
+    """R06.9: a primitive's is_borrowed flag agrees with what the bound C function returns."""
+    from ..cfront import lib_rt_functions
+    from .c05 import primitive_sites, call_label
+    r9 = chk.rule("R06.9", "for a primitive bound to a lib-rt function whose result comes out of a container slot or a borrowing CPython API (PyList_GET_ITEM's `ob_item[i]`, PyDict_GetItemWithError, ...): if the C function returns it without taking a reference the primitive is declared is_borrowed=True (otherwise the refcount pass releases a reference the function never acquired: an object is freed while the container still holds it), and if the C function takes a reference on every such path the primitive is not declared borrowed (otherwise the reference is never released)", floor=6)
+    funcs, _ = lib_rt_functions(ix.root)
+    chk.trusted.append("the list of CPython APIs that return borrowed references (sa/rules/c06.py BORROWING_APIS)")
+
+    def borrowed_src(x: str) -> bool:
+        return x == "borrowed:ob_item" or (x.startswith("call:") and x[5:] in BORROWING_APIS)
+    seen = set()
+    for m, n, kw, cname in primitive_sites(ix):
+        e = funcs.get(cname)
+        if e is None or "return_sources" not in e:
+            continue
+        ret_b, ret_o = [], []
+        for r in e["return_sources"]:
+            if borrowed_src(r):
+                ret_b.append(r)
+            elif r.startswith("ref:"):
+                v = r[4:]
+                srcs = e["assigned_from"].get(v, [])
+                if srcs and any(borrowed_src(x) for x in srcs):
+                    (ret_o if v in e["incref_args"] else ret_b).append(f"{v} <- {[x for x in srcs if borrowed_src(x)][0]}")
+        if not ret_b and not ret_o:
+            continue
+        b = kw.get("is_borrowed")
+        declared = isinstance(b, ast.Constant) and b.value is True
+        key = f"{m.name}: {cname} is_borrowed={declared} [{call_label(kw)}]"
+        if key in seen:
+            continue
+        seen.add(key)
+        where = f"{m.relpath}:{n.lineno}"
+        if ret_b and not declared:
+            r9.violation(key, where, f"{cname} returns {ret_b[0]} without taking a reference, but the primitive is not declared is_borrowed=True: the refcount pass will release a reference that was never acquired (the object is freed while its container still refers to it)")
+        elif declared and ret_o and not ret_b:
+            r9.violation(key, where, f"{cname} takes a new reference to what it returns ({ret_o[0]}), but the primitive is declared is_borrowed=True: that reference is never released")
+        else:
+            r9.ok(key, where, f"C returns {'borrowed ' + ret_b[0] if ret_b else 'new reference to ' + ret_o[0]}")
+
+
+def run_stolen_args(chk: Check, ix) -> None:
+    """R06.10: an argument a primitive declares as stolen is consumed by the C function on every exit."""
+    from ..cfront import lib_rt_functions
+    from .c05 import primitive_sites, call_label
+    r10 = chk.rule("R06.10", "a primitive that declares an argument as stolen (steals=...) hands the reference over for good: the refcount pass emits no release for it, so the bound lib-rt function must give it away on every exit — pass it to a stealing CPython API (PyList_SET_ITEM, ...), store it into an object slot, return it, or dec-ref it — including the exits that report an error; an exit that leaves it alone leaks one reference per call (structured walk over clang's statement tree of the C body)", floor=4)
+    funcs, _ = lib_rt_functions(ix.root)
+    n = 0
+    for m, call, kw, cname in primitive_sites(ix):
+        st = kw.get("steals")
+        if st is None or (isinstance(st, ast.Constant) and st.value is False):
+            continue
+        e = funcs.get(cname)
+        where = f"{m.relpath}:{call.lineno}"
+        if e is None or not e.get("has_body") or "consumption" not in e or kw.get("ordering") is not None:
+            continue
+        pn = e.get("param_names") or []
+        if isinstance(st, ast.List):
+            idx = [i for i, x in enumerate(st.elts) if isinstance(x, ast.Constant) and x.value is True]
+        elif isinstance(st, ast.Constant) and st.value is True:
+            idx = [i for i, p in enumerate(pn) if p in e["consumption"]]
+        else:
+            continue
+        for i in idx:
+            if i >= len(pn) or pn[i] not in e["consumption"]:
+                continue
+            c = e["consumption"][pn[i]]
+            key = f"{m.name}: {cname} consumes stolen argument {i} (`{pn[i]}`) on every exit [{call_label(kw)}]"
+            n += 1
+            if not c["structured"]:
+                r10.info(key, where, "the C body uses goto/switch: not decided")
+                continue
+            bad = [r for r in c["returns"] if r["may_be_unconsumed"]]
+            if bad:
+                r10.violation(key, where, f"{cname} can leave through {len(bad)} of {len(c['returns'])} exits (line {', '.join(str(r['line']) for r in bad[:4])}) without giving `{pn[i]}` away: the reference the primitive stole is never released (one leaked reference per failing call)")
+            else:
+                r10.ok(key, where, f"{len(c['returns'])} exits")
+    if n < 4:
+        raise AnalysisError(f"only {n} stolen arguments with a C body found")
+    # the other direction: a function that gives a parameter away without taking its own reference
+    seen = set()
+    for m, call, kw, cname in primitive_sites(ix):
+        e = funcs.get(cname)
+        if e is None or "consumption" not in e or kw.get("ordering") is not None:
+            continue
+        st = kw.get("steals")
+        for i, pn in enumerate(e.get("param_names") or []):
+            c = e["consumption"].get(pn)
+            if not c or not c.get("given_away"):
+                continue
+            stolen = (isinstance(st, ast.Constant) and st.value is True) or (isinstance(st, ast.List) and i < len(st.elts) and isinstance(st.elts[i], ast.Constant) and st.elts[i].value is True)
+            key = f"{m.name}: {cname} gives argument {i} (`{pn}`) away ({c['given_away']}) only if it owns it [{call_label(kw)}]"
+            if key in seen:
+                continue
+            seen.add(key)
+            where = f"{m.relpath}:{call.lineno}"
+            if stolen or c.get("increfed"):
+                r10.ok(key, where, "declared stolen" if stolen else "takes its own reference first")
+            else:
+                r10.violation(key, where, f"{cname} hands `{pn}` to its new owner ({c['given_away']}) without taking a reference, and the primitive does not declare the argument as stolen: the caller releases its reference too, so the object is freed while the new owner still points to it")
